@@ -72,6 +72,9 @@ thread_local! {
     static OUT: RefCell<ExecOut> = RefCell::new(ExecOut::default());
     static CPI_FAILED: RefCell<Option<u64>> = const { RefCell::new(None) };
     static CALLER: Cell<Pubkey> = const { Cell::new(Pubkey::new_from_array([0u8; 32])) };
+    /// the program whose code is running (the callee during a CPI): owner of the return data it sets
+    static CURRENT_PROGRAM: Cell<Pubkey> = const { Cell::new(Pubkey::new_from_array([0u8; 32])) };
+    static RETURN_DATA: RefCell<Option<(Pubkey, Vec<u8>)>> = const { RefCell::new(None) };
 }
 
 const MAX_PERMITTED_DATA_INCREASE: usize = 10240;
@@ -113,10 +116,18 @@ impl solana_program::program_stubs::SyscallStubs for Stubs {
     fn sol_invoke_signed(&self, instruction: &Instruction, account_infos: &[AccountInfo], signers_seeds: &[&[&[u8]]]) -> ProgramResult {
         cpi(instruction, account_infos, signers_seeds)
     }
-    fn sol_set_return_data(&self, _data: &[u8]) {}
-    fn sol_get_return_data(&self) -> Option<(Pubkey, Vec<u8>)> {
-        None
+    fn sol_set_return_data(&self, data: &[u8]) {
+        let pid = CURRENT_PROGRAM.with(|c| c.get());
+        RETURN_DATA.with(|r| *r.borrow_mut() = Some((pid, data.to_vec())));
     }
+    fn sol_get_return_data(&self) -> Option<(Pubkey, Vec<u8>)> {
+        RETURN_DATA.with(|r| r.borrow().clone())
+    }
+}
+
+fn host_set_return_data(data: &[u8]) {
+    let pid = CURRENT_PROGRAM.with(|c| c.get());
+    RETURN_DATA.with(|r| *r.borrow_mut() = Some((pid, data.to_vec())));
 }
 
 fn host_invoke(instruction: &Instruction, account_infos: &[AccountInfo], signers_seeds: &[&[&[u8]]]) -> ProgramResult {
@@ -201,6 +212,7 @@ pub fn install() {
     ONCE.call_once(|| {
         solana_program::program_stubs::set_syscall_stubs(Box::new(Stubs));
         solana_invoke::set_host_invoke(host_invoke);
+        solana_cpi::set_host_set_return_data(host_set_return_data);
         solana_msg::set_host_log(pino_log);
         pinocchio::host::set_hooks(pino_sysvar_get, pino_invoke, pino_log);
     });
@@ -216,16 +228,20 @@ fn cpi(ix: &Instruction, infos: &[AccountInfo], signers_seeds: &[&[&[u8]]]) -> P
     let mut ordered: Vec<AccountInfo> = vec![];
     for m in &ix.accounts {
         let info = infos.iter().find(|a| *a.key == m.pubkey).ok_or(ProgramError::NotEnoughAccountKeys)?;
+        // the runtime merges the privileges of duplicate entries of one account (is_signer |= .., is_writable |= ..):
+        // e.g. spl-token's mint_to(owner = X, signers = [X]) lists X once read-only and once as signer
+        let want_signer = ix.accounts.iter().any(|x| x.pubkey == m.pubkey && x.is_signer);
+        let want_writable = ix.accounts.iter().any(|x| x.pubkey == m.pubkey && x.is_writable);
         let can_sign = info.is_signer || pda_signers.contains(&m.pubkey);
-        if m.is_signer && !can_sign {
+        if want_signer && !can_sign {
             return Err(ProgramError::MissingRequiredSignature); // privilege escalation
         }
-        if m.is_writable && !info.is_writable {
+        if want_writable && !info.is_writable {
             return Err(ProgramError::Custom(0xE5CA_1A7E)); // writable privilege escalated
         }
         let mut c = info.clone();
-        c.is_signer = m.is_signer;
-        c.is_writable = m.is_writable;
+        c.is_signer = want_signer;
+        c.is_writable = want_writable;
         ordered.push(c);
     }
     let pid = ix.program_id;
@@ -237,11 +253,14 @@ fn cpi(ix: &Instruction, infos: &[AccountInfo], signers_seeds: &[&[&[u8]]]) -> P
             12 if ix.data.len() >= 9 && ordered.len() >= 3 => Some((u64::from_le_bytes(ix.data[1..9].try_into().unwrap()), *ordered[0].key, *ordered[2].key)),
             _ => None,
         };
+        let prev = CURRENT_PROGRAM.with(|c| c.replace(pid));
+        RETURN_DATA.with(|r| *r.borrow_mut() = None);
         let r = if pid == anchor_spl::token::ID {
             anchor_spl::token::spl_token::processor::Processor::process(&pid, &ordered, &ix.data)
         } else {
             anchor_spl::token_2022::spl_token_2022::processor::Processor::process(&pid, &ordered, &ix.data)
         };
+        CURRENT_PROGRAM.with(|c| c.set(prev));
         if r.is_ok() {
             if let Some((amount, src, dst)) = rec {
                 OUT.with(|o| o.borrow_mut().transfers.push((pid, tag, amount, src, dst)));
@@ -256,7 +275,81 @@ fn cpi(ix: &Instruction, infos: &[AccountInfo], signers_seeds: &[&[&[u8]]]) -> P
     if pid == system_id() {
         return system_program(&ordered, &ix.data);
     }
+    if pid == anchor_spl::associated_token::ID {
+        return ata_program(&ordered, &ix.data);
+    }
     Err(ProgramError::IncorrectProgramId)
+}
+
+/// A small associated-token-account program (no processor crate is available offline):
+/// Create (empty data or tag 0) / CreateIdempotent (tag 1) with accounts
+/// [funder (signer, writable), associated account (writable), wallet, mint, system program, token program].
+/// The address must be the PDA of (wallet, token program, mint); the account is created rent exempt with the
+/// size the REAL token program asks for (Token-2022: GetAccountDataSize with ImmutableOwner), assigned to
+/// the token program and initialized by the REAL token program (InitializeImmutableOwner, InitializeAccount3).
+fn ata_program(a: &[AccountInfo], data: &[u8]) -> ProgramResult {
+    let idempotent = match data.first() {
+        None | Some(0) => false,
+        Some(1) => true,
+        _ => return Err(ProgramError::InvalidInstructionData),
+    };
+    if a.len() < 6 {
+        return Err(ProgramError::NotEnoughAccountKeys);
+    }
+    let (funder, ata, wallet, mint, _system, token_prog) = (&a[0], &a[1], &a[2], &a[3], &a[4], &a[5]);
+    let ata_id = anchor_spl::associated_token::ID;
+    let (expected, _) = Pubkey::find_program_address(&[wallet.key.as_ref(), token_prog.key.as_ref(), mint.key.as_ref()], &ata_id);
+    if expected != *ata.key {
+        return Err(ProgramError::InvalidSeeds);
+    }
+    if *ata.owner != system_id() || !ata.data_is_empty() {
+        return if idempotent && *ata.owner == *token_prog.key { Ok(()) } else { Err(ProgramError::IllegalOwner) };
+    }
+    if *mint.owner != *token_prog.key {
+        return Err(ProgramError::IllegalOwner);
+    }
+    if !funder.is_signer {
+        return Err(ProgramError::MissingRequiredSignature);
+    }
+    let is22 = *token_prog.key == anchor_spl::token_2022::ID;
+    let tp = *token_prog.key;
+    let run = |ix: Instruction, infos: &[AccountInfo]| -> ProgramResult {
+        let prev = CURRENT_PROGRAM.with(|c| c.replace(tp));
+        let r = if is22 {
+            anchor_spl::token_2022::spl_token_2022::processor::Processor::process(&tp, infos, &ix.data)
+        } else {
+            anchor_spl::token::spl_token::processor::Processor::process(&tp, infos, &ix.data)
+        };
+        CURRENT_PROGRAM.with(|c| c.set(prev));
+        r
+    };
+    let space: usize = if is22 {
+        use anchor_spl::token_2022::spl_token_2022::extension::ExtensionType;
+        RETURN_DATA.with(|r| *r.borrow_mut() = None);
+        let ix = anchor_spl::token_2022::spl_token_2022::instruction::get_account_data_size(&tp, mint.key, &[ExtensionType::ImmutableOwner])?;
+        run(ix, &[mint.clone()])?;
+        let rd = RETURN_DATA.with(|r| r.borrow().clone()).ok_or(ProgramError::InvalidInstructionData)?;
+        u64::from_le_bytes(rd.1.as_slice().try_into().map_err(|_| ProgramError::InvalidInstructionData)?) as usize
+    } else {
+        165
+    };
+    let lamports = anchor_lang::solana_program::rent::Rent::default().minimum_balance(space);
+    if **funder.lamports.borrow() < lamports {
+        return Err(ProgramError::InsufficientFunds);
+    }
+    **funder.lamports.borrow_mut() -= lamports;
+    **ata.lamports.borrow_mut() += lamports;
+    ata.realloc(space, true)?;
+    ata.assign(&tp);
+    if is22 {
+        let ix = anchor_spl::token_2022::spl_token_2022::instruction::initialize_immutable_owner(&tp, ata.key)?;
+        run(ix, &[ata.clone()])?;
+        let ix = anchor_spl::token_2022::spl_token_2022::instruction::initialize_account3(&tp, ata.key, mint.key, wallet.key)?;
+        run(ix, &[ata.clone(), mint.clone()])
+    } else {
+        let ix = anchor_spl::token::spl_token::instruction::initialize_account3(&tp, ata.key, mint.key, wallet.key)?;
+        run(ix, &[ata.clone(), mint.clone()])
+    }
 }
 
 fn system_program(a: &[AccountInfo], data: &[u8]) -> ProgramResult {
